@@ -43,6 +43,9 @@ class Scratch:
         if patch:
             rc, out = sh("git apply %s" % patch, self.dir)
             if rc != 0:
+                # the tree moved on since the change was seeded (fix / hook commits): 3-way merge
+                rc, out = sh("git apply --3way %s" % patch, self.dir)
+            if rc != 0:
                 self.close()
                 raise RuntimeError("patch does not apply: " + out)
 
